@@ -54,6 +54,7 @@ func (scope VarMap) SetWriter(name string, v SafeWriter) VarMap {
 // Execute executes the template into w.
 func (t *Template) Execute(w io.Writer, variables VarMap, data interface{}) (err error) {
 	st := pool_State.Get().(*Runtime)
+	st = verifSwapRuntime(st)
 	defer st.recover(&err)
 
 	st.blocks = t.processedBlocks
